@@ -873,7 +873,7 @@ fn likely_chem_subscript(subscript: Element) -> isize {
             subscript.set_attribute_value(CHEM_STATE, "true");
             return 2;
         }
-    } else if subscript_name == "mrow" {
+    } else if subscript_name == "mrow" && !subscript.children().is_empty() {    // an mrow with an intent can be empty
         // debug!("likely_chem_subscript:\n{}", mml_to_string(&subscript));
         let children = subscript.children();
         if children.len() == 3 && IsBracketed::is_bracketed(subscript, "(", ")", false, true) {
